@@ -8,33 +8,48 @@ from . import common
 from .common import Corr, f2hex, hex2f, flist
 
 ID = "C03"
-LEAN_MODULES = ["TempestVerif.Props.C03"]
-RULE = ("real TPCNRunner/RWMRunner objects on generated inputs: d in 1..3, K in 1..3 modes (means in the cube, random SPD "
-        "covariances of scale 0.02..0.3, dof in {1,2.5,5,30,1e6}), 3..7 walkers, random assignments, per-cluster sigma in "
-        "(0.05,0.99), beta in (0,1], affine prior transform, random linear+quadratic log-likelihood (5%: a -inf hole -> NaN "
-        "acceptance path), periodic/reflective index subsets in 30% of the runners; numpy.random.gamma/randn/rand replaced by "
-        "tapes (gamma variates from the requested law, normals; for 30% of the walkers with a hard coordinate a forced "
-        "out-of-cube normal vector, which must be REJECTED: evaluated at the current point, alpha = 0, no redraw); EXACTLY ONE "
-        "step is run; per walker the gamma (shape, scale), the candidate returned by _propose, the in-bounds flag, the point "
-        "passed on, factor, alpha, accept bit, new state and the number of normal draws (= 1) are compared with "
-        "Model.Kernel.step at Float (regime T: |d| <= 1e-9(1+scale); decisions exact unless the margin is < 1e-9), per "
-        "cluster the adapted sigma. Non-trivial = K >= 2 or d >= 2 or the proposal left the cube.")
-MODELLED = ["`d @ M @ d`, einsum('ij,ijk,ik->i') and `chol @ z` are evaluated by BLAS/einsum in an unspecified summation order; "
-            "the model folds left to right (regime T tolerance)",
-            "the user's log_likelihood / prior_transform are uninterpreted: the model receives logL of the proposal from the caller",
-            "inverse-gamma law of s = 1/g (change of variables) and the passage from density identities to Markov kernels on R^d "
-            "are textbook steps, not formalised",
-            "inv_cov = Sigma^-1 and chol chol^T = Sigma (ModeStatistics) are assumed by the theorems; the tie feeds the code's own "
-            "inv/cholesky to the model"]
-ASSUMPTIONS = ["mode statistics are finite with Sigma positive definite and dof > 0; sigma in (0,1) for tpCN",
-               "current states lie in the unit cube (invariant of the sampler: proposals are returned only after check_bounds)",
-               "detailed balance is stated per pair of states through the Mahalanobis scalars; one step uses one sigma per cluster "
-               "(C03_sigma_fixed_within_step); adaptation across steps is not covered",
+LEAN_MODULES = ["TempestVerif.Props.C03", "TempestVerif.Lemmas.KernelGeom"]
+RULE = ("suites kernel-step-{tpcn,rwm}: real TPCNRunner/RWMRunner objects on generated inputs: d in 1..5, K in 1..4 modes (means in the "
+        "cube, random SPD covariances of scale 0.02..0.3, dof in {0.3,1,2,2.5,5,30,1e6}), 3..7 walkers (8%: a coordinate exactly on a "
+        "cube face), random assignments (about 2/3 of the walkers in runners with >= 2 non-empty modes of distinct dof; empty modes "
+        "occur), per-cluster sigma in (0.05,0.99) or, 12%, an edge value adaptation can reach (tpCN 0 / 0.99; RWM 1.7, 2.38, -0.2), "
+        "beta in (0,1], affine prior transform, random linear+quadratic log-likelihood (5%: a -inf hole -> NaN acceptance path), "
+        "periodic/reflective index subsets in 30% of the runners; 3%: malformed assignment (index >= K) -> IndexError expected on "
+        "both sides. numpy.random.gamma/randn/rand are replaced by tapes (gamma variates from the requested law, normals; for 30% of "
+        "the walkers with a hard coordinate a forced out-of-cube normal vector, which must be REJECTED: evaluated at the current "
+        "point, alpha = 0, no redraw). EXACTLY ONE step is run and compared with ONE op of the ensemble model "
+        "Model.Kernel.runStep at Float (`krun.F`: the model itself gathers each walker's mode by its assignment and adapts the "
+        "step sizes per cluster): per walker the gamma (shape, scale), the candidate returned by _propose, the in-bounds flag, the "
+        "point passed on, factor, alpha, accept bit, new state, number of normal draws (= 1); per cluster the adapted sigma "
+        "(empty clusters unchanged, exactly). Regime T: |d| <= 1e-9(1+scale); decisions exact unless the margin is < 1e-9. "
+        "Non-trivial = K >= 2 or d >= 2 or the proposal left the cube. Suite mode-stats-consistency: the real ModeStatistics on "
+        "random correlated SPD matrices (d 1..5): chol chol^T = Sigma, chol lower-triangular, inv_cov Sigma = I.")
+MODELLED = ["`d @ M @ d`, einsum('ij,ijk,ik->i'), `chol @ z` and `alpha[mask].mean()` are evaluated by BLAS/einsum/pairwise summation "
+            "in an unspecified order; the model folds left to right (regime T tolerance)",
+            "the user's log_likelihood / prior_transform are uninterpreted: the model receives logL of the current and of the "
+            "proposed point from the caller (tape); numpy.random.gamma / randn / rand are tapes (their laws — Gamma(shape, scale), "
+            "standard normal, uniform, independent across walkers — are assumed, not checked)",
+            "inverse-gamma law of s = 1/g (change of variables), the Jacobian of z -> mu + a(x-mu) + c L z (state-free constant), "
+            "the push-forward of a density under the periodic / reflective fold (sum over preimages) and the passage from density "
+            "identities to Markov kernels on R^d are textbook measure-theoretic steps, not formalised",
+            "np.linalg.inv / np.linalg.cholesky inside ModeStatistics: not modelled; their defining identities are checked on the real "
+            "class by suite mode-stats-consistency and are hypotheses (L invertible, Sigma = L L^T) of the geometry theorems",
+            "`_check_convergence` / `_calculate_adaptive_steps` (number of steps) and the progress bar are outside the property"]
+ASSUMPTIONS = ["H_modes: mode statistics are finite, dof > 0, chol invertible with chol chol^T = Sigma and inv_cov = Sigma^-1 "
+               "(checked on the real ModeStatistics by suite mode-stats-consistency, not proved about numpy)",
+               "H_assign: the cluster assignment is a function of the walker INDEX, fixed during the step (what the runner sees). "
+               "The pipeline computes it from the walker's POSITION before the mutation; with a position-dependent assignment the "
+               "first step is not pi-invariant (see clauses/C03.md, clause 9) — outside the statement as the runners implement it",
+               "tpCN step size in (0,1): maintained by the code ([0, 0.99] after every adaptation: C03_tpcn_adapt_range; sigma = 0 is "
+               "the identity step: C03_tpcn_sigma_zero); RWM: any real sigma",
+               "current states lie in the unit cube — maintained by the step (C03_step_stays_in_cube)",
+               "one step uses one sigma per cluster (C03_sigma_fixed_within_step); adaptation ACROSS steps (a history-dependent "
+               "kernel) and the acceptance-dependent stopping rule are not covered",
                "KNOWN defect F17 (tpCN on folded coordinates) is excluded from the proved statement and reported as a KNOWN-FINDING "
                "line; F16 (hard-boundary redraw) is fixed in /repo (9001dc4) and its witness is part of the corpus",
                "reflective coordinates in d >= 2: proved only for increment densities that are even in each reflective coordinate "
-               "(uncorrelated there); with a correlated covariance detailed balance FAILS (finding F21_reflective_correlated, "
-               "Lean counter-example C03_reflect_correlated_asymmetric, witness in harness/witnesses.py)"]
+               "(uncorrelated there; fold_mixed_symmetric); with a correlated covariance detailed balance FAILS (finding "
+               "F21_reflective_correlated, Lean counter-example C03_reflect_correlated_asymmetric, witness in harness/witnesses.py)"]
 
 TOL = 1e-9
 
@@ -96,14 +111,20 @@ def _spd(rng, d, scale):
 
 
 def _gen_runner(rng, kind):
-    d = rng.randint(1, 3)
-    K = rng.randint(1, 3)
+    d = rng.choice([1, 1, 2, 2, 3, 3, 4, 5])
+    K = rng.randint(1, 4)
     n = rng.randint(3, 7)
     means = np.array([[rng.uniform(0.25, 0.75) for _ in range(d)] for _ in range(K)])
     covs = np.array([_spd(rng, d, rng.choice([0.02, 0.05, 0.1, 0.2, 0.3])) for _ in range(K)])
-    dofs = np.array([rng.choice([1.0, 2.5, 5.0, 30.0, 1e6]) for _ in range(K)])
+    dofs = np.array([rng.choice([0.3, 1.0, 2.0, 2.5, 5.0, 30.0, 1e6]) for _ in range(K)])
     u = np.array([[rng.uniform(0.08, 0.92) for _ in range(d)] for _ in range(n)])
+    for row in u:                       # states exactly on a face of the cube are legal (check_bounds is inclusive)
+        if rng.random() < 0.08:
+            row[rng.randrange(d)] = rng.choice([0.0, 1.0])
     assign = np.array([rng.randrange(K) for _ in range(n)], dtype=int)
+    bad_index = rng.random() < 0.03     # malformed input: an assignment that is not a mode index -> IndexError on both sides
+    if bad_index:
+        assign[rng.randrange(n)] = K + rng.randint(0, 2)
     beta = rng.choice([1.0, 0.5, rng.uniform(0.01, 1.0)])
     lo = np.array([rng.uniform(-3, 0) for _ in range(d)])
     wd = np.array([rng.uniform(0.5, 6) for _ in range(d)])
@@ -130,7 +151,8 @@ def _gen_runner(rng, kind):
         per = np.array(p, dtype=int) if p else None
         refl = np.array(r, dtype=int) if r else None
     return dict(kind=kind, d=d, K=K, n=n, means=means, covs=covs, dofs=dofs, u=u, assign=assign, beta=beta,
-                prior_transform=prior_transform, log_likelihood=log_likelihood, per=per, refl=refl, hole=hole)
+                prior_transform=prior_transform, log_likelihood=log_likelihood, per=per, refl=refl, hole=hole,
+                bad_index=bad_index)
 
 
 def _one_step(cfg, rng):
@@ -142,7 +164,10 @@ def _one_step(cfg, rng):
     logl, _ = cfg["log_likelihood"](x)
     runner = _runner_cls(cfg["kind"])(u, x, logl, None, cfg["assign"], cfg["beta"], ms, cfg["log_likelihood"],
                                       cfg["prior_transform"], None, 1, 1, cfg["per"], cfg["refl"])
-    sig = np.array([rng.uniform(0.05, 0.99) for _ in range(cfg["K"])])
+    # step sizes: mid-range, plus the values adaptation can reach — tpCN is clipped to [0, 0.99]; RWM is not clipped at all
+    # (it starts at 2.38/sqrt(d) > 1 and may even go negative)
+    edge = [0.0, 0.99] if cfg["kind"] == "tpcn" else [1.7, 2.38, -0.2]
+    sig = np.array([rng.choice(edge) if rng.random() < 0.12 else rng.uniform(0.05, 0.99) for _ in range(cfg["K"])])
     runner.sigmas[:] = sig
     sigma0 = float(runner.sigma_0)
     n = cfg["n"]
@@ -189,6 +214,16 @@ def _rows(mat):
     return ";".join(flist(row, f2hex) for row in mat)
 
 
+def _krun_line(kind, cfg, ms, sig, sigma0, u, assign, ls, lps, gs, rs, zrows):
+    per = [] if cfg["per"] is None else [int(i) for i in cfg["per"]]
+    refl = [] if cfg["refl"] is None else [int(i) for i in cfg["refl"]]
+    return (f"krun.F kind={kind} d={cfg['d']} mus={_rows(ms.means)} chols={'|'.join(_rows(m) for m in ms.chol_covariances)} "
+            f"invcovs={'|'.join(_rows(m) for m in ms.inv_covariances)} nus={flist(ms.degrees_of_freedom, f2hex)} "
+            f"sigmas={flist(sig, f2hex)} beta={f2hex(cfg['beta'])} iter={f2hex(1.0)} sigma0={f2hex(sigma0)} "
+            f"per={flist(per, str)} refl={flist(refl, str)} us={_rows(u)} assign={flist([int(a) for a in assign], str)} "
+            f"ls={ls} lps={lps} gs={gs} rs={rs} zs={zrows}")
+
+
 def _close(a, b, scale):
     if a == b:
         return True
@@ -213,9 +248,27 @@ def correspond(tier):
         rng = common.rng_for("C03.corr." + kind)
         c = Corr(f"kernel-step-{kind}", "toleranced Float (T): values 1e-9(1+scale), decisions exact unless margin < 1e-9")
         lines, metas = [], []
-        adapt_lines, adapt_metas = [], []
+        run_lines, run_metas = [], []       # one `krun.F` op per runner: the model does the per-walker gather and the adaptation
         for _ in range(n_runners):
             cfg = _gen_runner(rng, kind)
+            from tempest.modes import ModeStatistics
+            if cfg["bad_index"]:
+                # malformed assignment: the real code must raise IndexError, the model answers `IndexError`
+                try:
+                    _one_step(cfg, rng)
+                    impl_err = "no error"
+                except IndexError:
+                    impl_err = "IndexError"
+                except Exception as e:
+                    impl_err = type(e).__name__
+                ms = ModeStatistics(cfg["means"], cfg["covs"], cfg["dofs"])
+                zero = flist([0.0] * cfg["n"], f2hex)
+                run_lines.append(_krun_line(kind, cfg, ms, np.full(cfg["K"], 0.5), 1.0, cfg["u"], cfg["assign"], zero, zero, zero, zero,
+                                            _rows(np.zeros((cfg["n"], cfg["d"])))))
+                run_metas.append(("error", impl_err, None))
+                c.case(run_lines[-1], True)
+                c.count("malformed:assignment_out_of_range")
+                continue
             try:
                 obs = _one_step(cfg, rng)
             except Exception as e:  # the real code crashing on a valid input is a disagreement with the (total) model
@@ -228,6 +281,14 @@ def correspond(tier):
             ms, seen, tape = obs["ms"], obs["seen"], obs["tape"]
             per = [] if cfg["per"] is None else [int(i) for i in cfg["per"]]
             refl = [] if cfg["refl"] is None else [int(i) for i in cfg["refl"]]
+            gs = [tape.gamma_calls.get(k, (0.0, 0.0, 1.0))[2] for k in range(cfg["n"])]
+            zrows = [tape.z_calls.get(k, [[0.0] * cfg["d"]])[0] for k in range(cfg["n"])]
+            run_lines.append(_krun_line(kind, cfg, ms, obs["sig"], obs["sigma0"], cfg["u"], cfg["assign"], flist(obs["logl"], f2hex),
+                                        flist(seen["logl_prime"], f2hex), flist(gs, f2hex), flist(tape.r, f2hex), _rows(zrows)))
+            run_metas.append(("run", cfg, obs))
+            for cl in range(cfg["K"]):
+                sg = float(obs["sig"][cl])
+                c.count("sigma=0" if sg == 0.0 else "sigma<0" if sg < 0 else "sigma>=1" if sg >= 1 else "sigma_in_(0,1)")
             for k in range(cfg["n"]):
                 cl = int(cfg["assign"][k])
                 zs = tape.z_calls.get(k, [])
@@ -251,24 +312,40 @@ def correspond(tier):
                     c.count("walker_in_runner_with_>=2_nonempty_modes_of_distinct_dof")
                 c.count("in_bounds" if inb else "out_of_bounds_rejected")
                 c.count(f"normal_draws={len(zs)}")
+                if any(x in (0.0, 1.0) for x in cfg["u"][k]):
+                    c.count("state_on_cube_face")
                 if per or refl:
                     c.count("folded_coordinates")
                 if cfg["hole"]:
                     c.count("likelihood_hole")
                 if kind == "tpcn" and k not in tape.gamma_calls:
                     c.disagree(input=line, impl="no gamma draw for this walker", model="one gamma draw per walker", kind=kind)
-            alpha = seen["alpha"]
+        # ---- the ensemble op: split its answer into the per-walker answers (same format as kstep.F) and the new sigmas
+        run_res = drv.batch(run_lines)
+        res = []
+        for (tag, a, obs), rline, rans in zip(run_metas, run_lines, run_res):
+            if tag == "error":
+                if not (rans == "IndexError" and a == "IndexError"):
+                    c.disagree(input=rline[:600], impl=a, model=rans, kind=kind, what=["index_error"])
+                continue
+            cfg = a
+            parts = rans.split(" ")
+            walkers = parts[0].split("|") if len(parts) == 2 else []
+            if len(walkers) != cfg["n"]:
+                c.disagree(input=rline[:600], impl="one step of the ensemble", model=rans[:200], kind=kind)
+                res += ["bad-op"] * cfg["n"]
+                continue
+            res += [w.replace("/", " ") for w in walkers]
+            new_sig = common.parse_list(parts[1], hex2f)
             for cl in range(cfg["K"]):
-                mask = cfg["assign"] == cl
-                if not np.any(mask):
-                    if obs["new_sig"][cl] != obs["sig"][cl]:
-                        c.disagree(input=f"empty cluster {cl}", impl=float(obs["new_sig"][cl]), model=float(obs["sig"][cl]), kind=kind)
-                    continue
-                acc = float(alpha[mask].mean())
-                adapt_lines.append(f"adapt.F kind={kind} sigma={f2hex(obs['sig'][cl])} iter={f2hex(1.0)} acc={f2hex(acc)} "
-                                   f"sigma0={f2hex(obs['sigma0'])}")
-                adapt_metas.append(float(obs["new_sig"][cl]))
-        res = drv.batch(lines)
+                empty = not np.any(cfg["assign"] == cl)
+                c.count("adapt_empty_cluster_kept" if empty else "adapt_checked")
+                want = float(obs["new_sig"][cl])
+                ok = (want == float(obs["sig"][cl]) and new_sig[cl] == want) if empty else _close(want, new_sig[cl], abs(want))
+                if len(new_sig) != cfg["K"] or not ok:
+                    c.disagree(input=rline[:600], impl={"new_sigmas": obs["new_sig"].tolist()}, model={"new_sigmas": new_sig},
+                               kind=kind, what=["adapt"])
+                    break
         for (cfg, obs, k), line, ans in zip(metas, lines, res):
             toks = ans.split(" ")
             seen, tape = obs["seen"], obs["tape"]
@@ -327,16 +404,6 @@ def correspond(tier):
             if bad:
                 c.disagree(input=line, impl=impl, model=ans, what=bad, kind=kind)
             c.sample({"op": line[:400], "impl": impl, "model": ans})
-        res = drv.batch(adapt_lines)
-        for want, line, ans in zip(adapt_metas, adapt_lines, res):
-            c.count("adapt_checked")
-            try:
-                got = hex2f(ans)
-            except ValueError:
-                c.disagree(input=line, impl=want, model=ans, kind=kind, what=["adapt"])
-                continue
-            if not _close(want, got, abs(got)):
-                c.disagree(input=line, impl=want, model=got, kind=kind, what=["adapt"])
         out.append(c)
     out.append(_mode_stats_consistency(tier))
     return out
@@ -502,7 +569,7 @@ def one_step_cell_2d(kernel, boundary, rho, sigma, seed, n=200000, bins=5):
     cov = np.array([[1.0, rho], [rho, 1.0]]) / 12.0
     ms = ModeStatistics(np.array([[0.5, 0.5]]), np.array([cov]), np.array([3.0]))
     idx = np.array([0, 1])
-    per = idx if boundary == "periodic" else None
+    per = idx if boundary == "periodic" else (np.array([0]) if boundary == "periodic+hard" else None)
     refl = idx if boundary == "reflective" else None
     runner = _runner_cls(kernel)(u, u.copy(), np.zeros(n), None, np.zeros(n, dtype=int), 1.0, ms,
                                  lambda x: (np.zeros(len(x)), None), lambda t: t, None, 1, 1, per, refl)
@@ -531,6 +598,7 @@ CELLS_2D = [
     # (kernel, boundary, rho, sigma, known_id)
     ("tpcn", "hard", 0.9, 0.5, None),                                 # proved: C03_tpcn_hard_reject (needs L L^T = Sigma)
     ("rwm", "periodic", 0.9, 0.5, None),                              # proved: fold_periodic_symmetric_nd
+    ("rwm", "periodic+hard", 0.9, 0.5, None),                         # proved: C03_rwm_mixed_boundaries (coordinate 0 periodic, 1 hard)
     ("rwm", "reflective", 0.0, 0.5, None),                            # proved: fold_reflective_symmetric_nd (diagonal Sigma)
     ("rwm", "reflective", 0.9, 0.5, "F21_reflective_correlated"),     # counter-example C03_reflect_correlated_asymmetric
 ]
